@@ -561,4 +561,110 @@ theorem Relayout.tok' (c : Char) (l : List Char) {s s' : List Char} (hc : isWs c
         subst hb
         exact .tok c l r lv hc hb' h
 
+/-! ### deciding the relation -/
+
+/-- a decision procedure for `Relayout s s'` that walks along the tokens of `s` (`fuel` bounds the number of
+    steps; sound by `relayoutB_sound`). The correspondence check runs it on every re-layout it tests. -/
+def relayoutB : Nat → List Char → List Char → Bool
+  | 0, _, _ => false
+  | f + 1, s, s' =>
+      if s.isEmpty && s'.isEmpty then true
+      else if inP s && inP s' then relayoutB f (s.drop 4) (s'.drop 4)
+      else if !(s'.takeWhile isWs).isEmpty then
+        ((s.takeWhile isWs).isEmpty || !inP s) && !inP s' && relayoutB f (s.dropWhile isWs) (s'.dropWhile isWs)
+      else if !(s.takeWhile isWs).isEmpty then false
+      else
+        match bestRule lexRules s none 0 with
+        | (some (_, n), _) =>
+            (s.take n).length == n && s.take n == s'.take n && relayoutB f (s.drop n) (s'.drop n)
+        | _ => false
+
+theorem allWs_takeWhile : ∀ s : List Char, allWs (s.takeWhile isWs) = true
+  | [] => rfl
+  | c :: s => by
+      by_cases h : isWs c = true
+      · simp only [List.takeWhile_cons, h, if_true, allWs, List.all_cons, Bool.true_and]
+        exact allWs_takeWhile s
+      · simp [List.takeWhile_cons, h, allWs]
+
+theorem tight_dropWhile : ∀ s : List Char, tight (s.dropWhile isWs) = true
+  | [] => rfl
+  | c :: s => by
+      by_cases h : isWs c = true
+      · simp only [List.dropWhile_cons, h, if_true]; exact tight_dropWhile s
+      · simp [List.dropWhile_cons, h, tight]
+
+theorem takeWhile_nil_head {c : Char} {s : List Char} (h : ((c :: s).takeWhile isWs).isEmpty = true) : isWs c = false := by
+  by_cases hc : isWs c = true
+  · simp [List.takeWhile_cons, hc] at h
+  · simpa using hc
+
+theorem relayoutB_sound : ∀ (f : Nat) (s s' : List Char), relayoutB f s s' = true → Relayout s s'
+  | 0, _, _, h => by simp [relayoutB] at h
+  | f + 1, s, s', h => by
+      unfold relayoutB at h
+      split at h
+      · rename_i he
+        simp only [Bool.and_eq_true, List.isEmpty_iff] at he
+        obtain ⟨rfl, rfl⟩ := he
+        exact .nil
+      · split at h
+        · rename_i hin
+          simp only [Bool.and_eq_true] at hin
+          have h1 : s = inTok ++ s.drop 4 := by
+            have := hin.1; simp only [inP, beq_iff_eq] at this
+            show s = [' ', 'i', 'n', ' '] ++ s.drop 4
+            rw [← this, List.take_append_drop]
+          have h2 : s' = inTok ++ s'.drop 4 := by
+            have := hin.2; simp only [inP, beq_iff_eq] at this
+            show s' = [' ', 'i', 'n', ' '] ++ s'.drop 4
+            rw [← this, List.take_append_drop]
+          rw [h1, h2]
+          exact .tokIn (relayoutB_sound f _ _ h)
+        · split at h
+          · rename_i hws'
+            simp only [Bool.and_eq_true, Bool.or_eq_true, Bool.not_eq_eq_eq_not, Bool.not_true] at h
+            obtain ⟨⟨h1, h2⟩, h3⟩ := h
+            have hs : s = s.takeWhile isWs ++ s.dropWhile isWs := (List.takeWhile_append_dropWhile).symm
+            have hs' : s' = s'.takeWhile isWs ++ s'.dropWhile isWs := (List.takeWhile_append_dropWhile).symm
+            rw [hs, hs']
+            refine .gap _ _ (allWs_takeWhile s) (allWs_takeWhile s') ?_ (tight_dropWhile s) (tight_dropWhile s') ?_ ?_
+              (relayoutB_sound f _ _ h3)
+            · intro hnil; rw [hnil] at hws'; simp at hws'
+            · intro hne
+              rw [← hs]
+              rcases h1 with h1 | h1
+              · rw [List.isEmpty_iff] at h1; exact absurd h1 hne
+              · exact h1
+            · rw [← hs']; exact h2
+          · split at h
+            · cases h
+            · rename_i hws' hws
+              split at h
+              · rename_i r n lv hb
+                simp only [Bool.and_eq_true, beq_iff_eq] at h
+                obtain ⟨⟨hlen, htake⟩, hrest⟩ := h
+                have hpos : 0 < n := by
+                  have := bestRule_pos lexRules s none 0 (by intro _ _ h; cases h)
+                  rw [hb] at this
+                  exact this r n rfl
+                cases s with
+                | nil => simp at hlen; omega
+                | cons c t =>
+                    have hc : isWs c = false := takeWhile_nil_head (by simpa using hws)
+                    obtain ⟨m, rfl⟩ : ∃ m, n = m + 1 := ⟨n - 1, by omega⟩
+                    have htk : (c :: t).take (m + 1) = c :: t.take m := by simp
+                    have e1 : c :: t = c :: t.take m ++ (c :: t).drop (m + 1) := by
+                      rw [← htk]; exact (List.take_append_drop (m + 1) _).symm
+                    have e2 : s' = c :: t.take m ++ s'.drop (m + 1) := by
+                      rw [← htk, htake]; exact (List.take_append_drop (m + 1) _).symm
+                    have hlen' : (c :: t.take m).length = m + 1 := by rw [← htk]; exact hlen
+                    have hb' : bestRule lexRules (c :: List.take m t ++ List.drop (m + 1) (c :: t)) none 0
+                        = (some (r, (c :: List.take m t).length), lv) := by
+                      rw [← e1, hlen']; exact hb
+                    have key := Relayout.tok c (t.take m) r lv hc hb' (relayoutB_sound f _ _ hrest)
+                    rw [← e1, ← e2] at key
+                    exact key
+              · cases h
+
 end Cpf.Lemmas.LexLayoutQ
